@@ -23,7 +23,7 @@ PROPS = {
              "the regenerated tables; executable model of trim/stage 1/index buffers/stage 2 compared with Parse/ParseND on generated, mutated and raw inputs; "
              "the RFC 8259 grammar (Spec.Json, scannerless, exact float finiteness) is the oracle for accept/reject.",
              ["inputs with ill-formed surrogate escapes, non-UTF-8 strings or Unicode white space at the edges are outside the claim (Spec returns `outside`)"]),
-    "C02": P("proof", ["parse", "strings"],
+    "C02": P("proof", ["parse", "strings", "numeric"],
              "Tape, string buffer and every read API (Interface, ordered walk through Object/Array/Iter, MarshalJSON) compared word for word with the model; "
              "ordered read-back compared with the value Spec.Json denotes (order, duplicates, unescaped strings, number types).",
              ["same exclusions as C01"]),
